@@ -1,0 +1,92 @@
+//go:build verif
+
+package main
+
+// C31 driver: `run <spec>` starts one goroutine per `/`-separated part of spec on a fresh indexMutex;
+// each goroutine performs its `,`-separated operations in order:
+//
+//	W<name>.<work>   m.With(name, f)
+//	G.<work>         m.Global(f)
+//
+// where f does <work> scheduler yields (work < 10) or sleeps <work> microseconds. Every goroutine logs
+// `<goroutine>.<op index>.<kind>` to one totally ordered log: c = about to call, b = f began, e = f about to
+// return, t / f = With returned true / false, r = Global returned. b and e are logged from inside f, so two
+// f's whose [b, e] log intervals intersect did run at the same time.
+
+import (
+	"fmt"
+	"runtime"
+	"strconv"
+	"strings"
+	"sync"
+	"time"
+)
+
+func verifC31(fields []string) string {
+	if len(fields) != 2 || fields[0] != "run" {
+		return "ERR usage"
+	}
+	var m indexMutex
+	var logMu sync.Mutex
+	var events []string
+	logEv := func(g, k int, kind string) {
+		logMu.Lock()
+		events = append(events, fmt.Sprintf("%d.%d.%s", g, k, kind))
+		logMu.Unlock()
+	}
+	work := func(w int) {
+		if w < 10 {
+			for i := 0; i < w; i++ {
+				runtime.Gosched()
+			}
+		} else {
+			time.Sleep(time.Duration(w) * time.Microsecond)
+		}
+	}
+	var wg sync.WaitGroup
+	start := make(chan struct{})
+	for g, part := range strings.Split(fields[1], "/") {
+		ops := strings.Split(part, ",")
+		wg.Add(1)
+		go func(g int, ops []string) {
+			defer wg.Done()
+			<-start
+			for k, op := range ops {
+				dot := strings.LastIndexByte(op, '.')
+				w, err := strconv.Atoi(op[dot+1:])
+				if err != nil || dot < 1 {
+					logEv(g, k, "ERR")
+					return
+				}
+				f := func() {
+					logEv(g, k, "b")
+					work(w)
+					logEv(g, k, "e")
+				}
+				logEv(g, k, "c")
+				switch op[0] {
+				case 'W':
+					if m.With(op[1:dot], f) {
+						logEv(g, k, "t")
+					} else {
+						logEv(g, k, "f")
+					}
+				case 'G':
+					m.Global(f)
+					logEv(g, k, "r")
+				default:
+					logEv(g, k, "ERR")
+				}
+			}
+		}(g, ops)
+	}
+	close(start)
+	wg.Wait()
+	// quiescent state: nothing may be left in running, and both locks must be free
+	left := len(m.running)
+	free := m.indexMu.TryLock()
+	if free {
+		m.indexMu.Unlock()
+	}
+	return fmt.Sprintf("%s left=%d free=%t", strings.Join(events, ","), left, free)
+}
